@@ -73,6 +73,10 @@ def worker_init():
     _EXP[("R", 0)] = I.tree_to_tuple(_resolve(AHB[0]))
     _EXP[("R", 1)] = I.tree_to_tuple(_resolve(COND[1]))
     _EXP[("Ev", 0)] = _evaluate(AHB[0])
+    # calibration (cold state): does the AHB parser keep the whitespace between indicator and condition text in its token?
+    cal = "\t \t \t"
+    t = I.tree_to_tuple(I.parse_ahb_expression_to_single_requirement_indicator_expressions("Muss" + cal + AHB[0][4:]))
+    _EXP["keeps_ws"] = cal in repr(t).encode().decode("unicode_escape")
 
 
 def _env():
@@ -123,7 +127,7 @@ class World:
                 if isinstance(t, tuple):
                     if t and t[0] == "%CONDITION_EXPRESSION" and first[0]:
                         first[0] = False
-                        return (t[0], self.pad + t[1])
+                        return (t[0], (self.pad if _EXP["keeps_ws"] else "") + t[1])
                     return tuple(fix(c) if isinstance(c, tuple) else c for c in t)
                 return t
 
